@@ -408,7 +408,11 @@ func (x *c11chain) hostileDiffs(ids *state.IdentityStateDB, hdr *types.Header, h
 			x.failed = true
 			return
 		}
-		c.Line(fmt.Sprintf("hostile %d %s", h, diffStrRaw(wd)), ans)
+		vt := verdict
+		if ans == "same" {
+			vt = "any" // same contents: acceptance depends on whether the history (hence the root) is the same too
+		}
+		c.Line(fmt.Sprintf("hostile %d %s", h, diffStrRaw(wd)), fmt.Sprintf("addDiff=%s verdict=%s", ans, vt))
 		c.Hit(fmt.Sprintf("hostile-diff:kind%d:%s/%s", kind, ans, verdict))
 		c.Rep.Evaluations++
 	}
@@ -1330,7 +1334,7 @@ func init() {
 				return err
 			}
 		}
-		for i := 0; i < c.Scale(6, 120); i++ {
+		for i := 0; i < c.Scale(12, 120); i++ {
 			leaves := []int{1, 2, 3, 5, 8, 13, 21, 34}[i%8]
 			if err := run(c11case{Kind: "snap", Seed: c.Seed*1000 + int64(i), Leaves: leaves, Commits: 1 + i%4}); err != nil {
 				return err
@@ -1341,7 +1345,7 @@ func init() {
 				return err
 			}
 		}
-		for i := 0; i < c.Scale(8, 200); i++ {
+		for i := 0; i < c.Scale(14, 200); i++ {
 			cs := c11case{Kind: "chain", Seed: c.Seed*1000 + int64(i), Blocks: 100, Reorgs: i%4 != 3}
 			if c.Tier == "thorough" && i%10 == 0 {
 				cs.SnapEvery = 25
